@@ -145,7 +145,10 @@ def dishonest_certificate(ch):
                                (1, "used-not-declared"), (1, "wrong")], "dis.tweak")
         signer_key = keys[parent]
         if tw_mode != "none":
-            tweak = ch.bytes(32, "dis.tw")
+            # (the tweak is whatever bytes the element declares: hashes are 32 bytes, nothing says a
+            # tweak is)
+            tweak = ch.bytes(ch.weighted([(5, 32), (1, 20), (1, 1), (1, 33), (1, 64), (1, 65)], "dis.tw.len"),
+                             "dis.tw")
         use = tweak if tw_mode in ("valid", "used-not-declared") else None
         if tw_mode == "wrong":
             use = ch.bytes(32, "dis.tw2")
